@@ -99,10 +99,43 @@ def loop_kinds(prog, func):
             # coroutine loop: every cycle must pass a yield_
             ok = every_cycle_passes(body, blocks, head, set(yields))
             info.update(kind='coroutine', ok=ok, why='every cycle passes a yield_ (%d yield sites inside)' % len(yields))
+        elif guard_switch(body, head, blocks) is not None:
+            # `while a < b { .. }`: decided by the caller from the engine's ranking argument
+            info.update(kind='while-cmp', ok=False, why='`while` with a comparison guard')
         else:
             info.update(kind='other', ok=False, why='loop form not recognised (head terminator %s)' % (hname or ht['k']))
         out.append(info)
     return out
+
+
+def guard_switch(body, head, blocks):
+    """the block that decides whether a `while` loop continues: reached from the head along single
+    in-loop successors, it switches on a comparison computed in the block itself and one of its two
+    targets leaves the loop.  -> (chain of blocks, guard block, continue-iff-true) or None"""
+    chain = []
+    b = head
+    for _ in range(6):
+        chain.append(b)
+        t = body.blocks[b]['term']
+        if t['k'] == 'switch':
+            d = t['discr']
+            if d['k'] in ('copy', 'move') and not d['place']['proj']:
+                dl = d['place']['local']
+                cmp_ = [s for s in body.blocks[b]['stmts'] if s['k'] == 'assign' and s['place']['local'] == dl and not s['place']['proj']
+                        and s['rv']['k'] == 'binop' and s['rv']['op'] in ('Lt', 'Le', 'Gt', 'Ge')]
+                tg = t['targets']
+                if cmp_ and len(tg) == 1 and tg[0][0] == 0:
+                    zero_in, other_in = tg[0][1] in blocks, t['otherwise'] in blocks
+                    if other_in and not zero_in:
+                        return (tuple(chain), b, True)
+                    if zero_in and not other_in:
+                        return (tuple(chain), b, False)
+            return None
+        nxt = [x for x in body.succs(b) if x in blocks and not body.blocks[x].get('cleanup')]
+        if t['k'] not in ('goto', 'call', 'assert', 'drop') or len(nxt) != 1 or nxt[0] == head:
+            return None
+        b = nxt[0]
+    return None
 
 
 def _same_recv(body, t1, t2):
